@@ -126,9 +126,10 @@ Section WithEnv.
 End WithEnv.
 
 (* ---- the public entry points built on [adapt] ---- *)
-(* adapt(obj, P) raises AdaptationError, adapt(obj, P, default) returns the default,
+(* ApiAdapt = manager.adapt(obj, P) on the user's manager, ApiAdaptModule = the module-level traits.api.adapt(obj, P) (global
+   manager): both raise AdaptationError; adapt(obj, P, default) returns the default,
    supports_protocol(obj, P) = adapt(obj, P, None) is not None *)
-Inductive api := ApiAdapt | ApiAdaptDefault | ApiSupports
+Inductive api := ApiAdapt | ApiAdaptModule | ApiAdaptDefault | ApiSupports
                | TraitInstance (mode : nat)      (* Instance(P, adapt="no"/"yes"/"default") = mode 0/1/2 *)
                | TraitSupports | TraitAdaptsTo    (* both mode 1 *)
                (* the adaptable-object check as ONE ALTERNATIVE of a compound trait (validate_trait_complex case 19,
@@ -171,8 +172,9 @@ Definition run_api (E : env) (fuel : nat) (a : api) : outcome :=
   let r := adapt E fuel in
   let provides := e_sub E (e_src E) (e_target E) in
   match a with
-  | ApiAdapt => match r with RFuel => OOutOfFuel | RNone => OAdaptationError
-                | RSelf => OValue VSelf | RAdapter p => OValue (VAdapter p) end
+  | ApiAdapt | ApiAdaptModule =>
+      match r with RFuel => OOutOfFuel | RNone => OAdaptationError
+      | RSelf => OValue VSelf | RAdapter p => OValue (VAdapter p) end
   | ApiAdaptDefault => match r with RFuel => OOutOfFuel | RNone => OValue VDefault
                        | RSelf => OValue VSelf | RAdapter p => OValue (VAdapter p) end
   | ApiSupports => match r with RFuel => OOutOfFuel | RNone => OBool false | _ => OBool true end
@@ -344,21 +346,33 @@ Definition default_fuel : nat := 200 * 100.
    answered from the state current at that point.
    ====================================================================== *)
 Definition query := (ty * ty * bool * api)%type.     (* source type, target protocol, adaptee flag, entry point *)
-Record hstate := mkH { h_sub : list (list bool); h_mro : list (list ty); h_offers : list (ty * ty * fac) }.
+Record hstate := mkH { h_sub : list (list bool); h_mro : list (list ty);
+                       h_offers : list (ty * ty * fac);     (* the registry of the USER'S manager *)
+                       h_global : bool                      (* the user's manager is the global one *) }.
 Inductive hop :=
 | HQuery (q : query)
 | HTables (s : list (list bool)) (m : list (list ty))      (* the hierarchy changed: tables as they are now *)
-| HOffer (o : ty * ty * fac).                               (* register_offer: appended, id = position *)
+| HOffer (o : ty * ty * fac)                                (* register_offer on the user's manager: appended, id = position *)
+| HResetGlobal       (* reset_global_adaptation_manager(): the global manager becomes a NEW, empty one; the user's keeps its offers *)
+| HSetGlobal.        (* set_global_adaptation_manager(user's manager) *)
+
+(* which entry points go through the GLOBAL manager: the module-level adapt / supports_protocol, and the traits (the C
+   validator calls the module-level adapt); AdaptationManager.adapt called on the user's manager does not *)
+Definition uses_global (a : api) : bool := match a with ApiAdapt => false | _ => true end.
 
 Definition config_of (st : hstate) (q : query) : config :=
-  let '(src, tgt, flag, _) := q in
-  {| c_sub := h_sub st; c_mro := h_mro st; c_offers := h_offers st; c_src := src; c_target := tgt; c_flag := flag |}.
+  let '(src, tgt, flag, a) := q in
+  {| c_sub := h_sub st; c_mro := h_mro st;
+     c_offers := if uses_global a && negb (h_global st) then [] else h_offers st;      (* a fresh global manager has no offers *)
+     c_src := src; c_target := tgt; c_flag := flag |}.
 
 Definition hstep (fuel : nat) (st : hstate) (o : hop) : hstate * option outcome :=
   match o with
   | HQuery q => (st, Some (run_api (env_of (config_of st q)) fuel (snd q)))
-  | HTables s m => (mkH s m (h_offers st), None)
-  | HOffer x => (mkH (h_sub st) (h_mro st) (h_offers st ++ [x]), None)
+  | HTables s m => (mkH s m (h_offers st) (h_global st), None)
+  | HOffer x => (mkH (h_sub st) (h_mro st) (h_offers st ++ [x]) (h_global st), None)
+  | HResetGlobal => (mkH (h_sub st) (h_mro st) (h_offers st) false, None)
+  | HSetGlobal => (mkH (h_sub st) (h_mro st) (h_offers st) true, None)
   end.
 
 Fixpoint hrun (fuel : nat) (st : hstate) (ops : list hop) : list (hop * option outcome) :=
